@@ -125,10 +125,11 @@ theorem M.run_forIn_push_bind {α γ β : Type} (ev : α → St → Res γ × St
 @[simp] theorem len_list (l : List Value) : len l = l.length := rfl
 @[simp] theorem len_str (s : Str) : len s = utf8Len s := rfl
 @[simp] theorem eq_nat (a b : Nat) : eq a b = (a == b) := rfl
+@[simp] theorem eq_valueType (a b : ValueType) : eq a b = (a == b) := rfl
 @[simp] theorem eq_value (a b : Value) : eq a b = Value.beq a b := rfl
 @[simp] theorem ne_def [PEq α] (a b : α) : ne a b = !eq a b := rfl
 @[simp] theorem clone_def (a : α) : clone a = a := rfl
-@[simp] theorem cloned_def (a : Option α) : cloned a = a := rfl
+@[simp] theorem cloned_def {φ : Type} (a : φ) : cloned a = a := rfl
 @[simp] theorem not_def (a : Bool) : Rs.not a = !a := rfl
 @[simp] theorem is_empty_def (l : List α) : is_empty l = l.isEmpty := rfl
 @[simp] theorem first_def (l : List α) : first l = l.head? := rfl
